@@ -25,6 +25,7 @@ import (
 	sdk "github.com/cosmos/cosmos-sdk/types"
 	authtypes "github.com/cosmos/cosmos-sdk/x/auth/types"
 	banktypes "github.com/cosmos/cosmos-sdk/x/bank/types"
+	slashingtypes "github.com/cosmos/cosmos-sdk/x/slashing/types"
 	stakingtypes "github.com/cosmos/cosmos-sdk/x/staking/types"
 
 	"github.com/certikfoundation/shentu/app"
@@ -72,6 +73,8 @@ type GenCfg struct {
 	ExtraDenom []string
 	Balance    int64 // bond-denom balance per account
 	ValStake   []int64
+	MinSelf    []int64 // minimum self-delegation per genesis validator (default 1)
+	Votes      bool    // deliver a LastCommitInfo with every block (needed by the slashing module's downtime logic)
 	// Patch lets a profile edit module genesis (parameters) before InitChain.
 	Patch func(enc appparams.EncodingConfig, gs app.GenesisState)
 	DB    dbm.DB
@@ -93,6 +96,7 @@ type Chain struct {
 	DB      dbm.DB
 	ValPriv []*ed25519.PrivKey
 	Genesis []byte
+	Offline map[string]bool // operators (hex) whose validators do not sign (downtime)
 	// Blocks is the log of everything this node was fed and what it answered (C10, C20: replay on other instances).
 	Blocks []*BlockRec
 }
@@ -105,6 +109,7 @@ type BlockRec struct {
 	Results []TxResult
 	AppHash []byte
 	Updates string
+	Commit  abci.LastCommitInfo
 }
 
 func (c *Chain) Header() tmproto.Header {
@@ -144,7 +149,7 @@ func NewChain(cfg GenCfg, out *Recorder) *Chain {
 		db = dbm.NewMemDB()
 	}
 	a := newApp(db, enc)
-	c := &Chain{App: a, Enc: enc, Cfg: cfg, ByName: map[string]int{}, Rng: rand.New(rand.NewSource(cfg.Seed)), Out: out, DB: db}
+	c := &Chain{App: a, Enc: enc, Cfg: cfg, ByName: map[string]int{}, Rng: rand.New(rand.NewSource(cfg.Seed)), Out: out, DB: db, Offline: map[string]bool{}}
 	gs := app.ModuleBasics.DefaultGenesis(enc.Marshaler)
 
 	var accs []authtypes.GenesisAccount
@@ -172,16 +177,35 @@ func NewChain(cfg GenCfg, out *Recorder) *Chain {
 			panic(err)
 		}
 		amt := sdk.NewInt(cfg.ValStake[i%len(cfg.ValStake)])
+		minSelf := sdk.OneInt()
+		if len(cfg.MinSelf) > 0 {
+			minSelf = sdk.NewInt(cfg.MinSelf[i%len(cfg.MinSelf)])
+		}
 		valAddr := sdk.ValAddress(c.Accts[i].Addr)
 		val := stakingtypes.Validator{OperatorAddress: valAddr.String(), ConsensusPubkey: pkAny, Jailed: false, Status: stakingtypes.Bonded,
 			Tokens: amt, DelegatorShares: amt.ToDec(), Description: stakingtypes.Description{Moniker: fmt.Sprintf("v%d", i)}, UnbondingTime: time.Unix(0, 0).UTC(),
-			Commission: stakingtypes.NewCommission(sdk.ZeroDec(), sdk.ZeroDec(), sdk.ZeroDec()), MinSelfDelegation: sdk.OneInt()}
+			Commission: stakingtypes.NewCommission(sdk.ZeroDec(), sdk.ZeroDec(), sdk.ZeroDec()), MinSelfDelegation: minSelf}
 		sg.Validators = append(sg.Validators, val)
 		sg.Delegations = append(sg.Delegations, stakingtypes.NewDelegation(c.Accts[i].Addr, valAddr, amt.ToDec()))
 		bonded = bonded.Add(amt)
 	}
 	sg.Params.BondDenom = Bond
 	gs[stakingtypes.ModuleName] = enc.Marshaler.MustMarshalJSON(&sg)
+	if cfg.Votes {
+		// the slashing module expects signing information for every bonded validator, and a short window so that downtime is punished
+		var slg slashingtypes.GenesisState
+		enc.Marshaler.MustUnmarshalJSON(gs[slashingtypes.ModuleName], &slg)
+		slg.Params.SignedBlocksWindow = 6
+		slg.Params.MinSignedPerWindow = sdk.NewDecWithPrec(5, 1)
+		slg.Params.DowntimeJailDuration = 30 * time.Second
+		slg.Params.SlashFractionDowntime = sdk.NewDecWithPrec(7, 2)
+		for _, vp := range c.ValPriv {
+			ca := sdk.ConsAddress(vp.PubKey().Address())
+			slg.SigningInfos = append(slg.SigningInfos, slashingtypes.SigningInfo{Address: ca.String(),
+				ValidatorSigningInfo: slashingtypes.NewValidatorSigningInfo(ca, cfg.H0, 0, time.Unix(0, 0).UTC(), false, 0)})
+		}
+		gs[slashingtypes.ModuleName] = enc.Marshaler.MustMarshalJSON(&slg)
+	}
 	if bonded.IsPositive() {
 		bals = append(bals, banktypes.Balance{Address: authtypes.NewModuleAddress(stakingtypes.BondedPoolName).String(), Coins: sdk.NewCoins(sdk.NewCoin(Bond, bonded))})
 	}
@@ -277,8 +301,13 @@ func (c *Chain) Begin(dt time.Duration) *PanicInfo {
 	c.Height++
 	c.Time = c.Time.Add(dt)
 	c.Blocks = append(c.Blocks, &BlockRec{Height: c.Height, Time: c.Time})
+	req := abci.RequestBeginBlock{Header: c.Header()}
+	if c.Cfg.Votes {
+		req.LastCommitInfo = c.lastCommit()
+	}
+	c.Blocks[len(c.Blocks)-1].Commit = req.LastCommitInfo
 	pi := catch(func() {
-		c.App.BeginBlock(abci.RequestBeginBlock{Header: c.Header()})
+		c.App.BeginBlock(req)
 	})
 	c.InBlock = true
 	if pi != nil {
@@ -360,6 +389,20 @@ func (c *Chain) Deliver(signer int, gas uint64, fee int64, msgs ...sdk.Msg) TxRe
 		c.Blocks[n-1].Results = append(c.Blocks[n-1].Results, tr)
 	}
 	return tr
+}
+
+// lastCommit: every bonded validator signed the previous block, except those the generator keeps offline.
+func (c *Chain) lastCommit() abci.LastCommitInfo {
+	var votes []abci.VoteInfo
+	ctx := c.App.BaseApp.NewContext(true, c.Header())
+	for _, v := range c.App.VerifStakingKeeper().GetBondedValidatorsByPower(ctx) {
+		ca, err := v.GetConsAddr()
+		if err != nil {
+			continue
+		}
+		votes = append(votes, abci.VoteInfo{Validator: abci.Validator{Address: ca, Power: v.ConsensusPower()}, SignedLastBlock: !c.Offline[Hex(v.GetOperator())]})
+	}
+	return abci.LastCommitInfo{Votes: votes}
 }
 
 // quietGap is the block-time gap of the quiet blocks appended by the export profile: long enough for every period to pass.
